@@ -29,6 +29,18 @@ CHECKS = {
             "round-trip equality, upper-case sorted names, quoting of , ; : and agreement with an independent strict splitter (RFC 6868 reading accepted). "
             "Placeholder mismatches tolerated only when equal to the defect model's prediction.",
             "trusted: refmodel/rfc_text.py; values free of double quotes and control characters as the statement says", "3/C08"),
+    "C05": ("bounded-exhaustive (pairwise-cut) enumeration of names x parameter maps x values over the delimiter/escape alphabet through the real join/split and a sentinel-guarded component round trip",
+            "Every parameter value and every value over {\\ ; : , \" % 2 C CR LF a SP} up to length 3 (thorough 4), paired with menus of 20 hostile values / "
+            "parameter values, all pairs up to length 2, 4 string value classes and a typed menu: from_parts/parts must return what was joined, and the "
+            "VEVENT / strict VTODO round trip must end in exactly one of the statement's three outcomes (refused, rejected alone, exact structure). "
+            "Placeholder mismatches tolerated only when equal to the defect model's prediction.",
+            "trusted: refmodel/rfc_text.py, mc/snapshot.structure; refusal accepted only for content the format cannot carry", "3/C05"),
+    "C03": ("exhaustive sweep of finite value domains (all dates, seconds of day, UTC offsets, bounded durations) and structured grids/grammars for unbounded ones, executed on the real codec classes vs. RFC regexes and reference decoders",
+            "Quick: all dates 1900-2100 (+ month boundaries of every other year), every second of the day, every whole-second offset |o|<24h, every "
+            "duration |d|<72h, grids for periods/ints/floats/binary/geo and all weekday/frequency/month texts; thorough: all 3.65M dates and durations to 40 days. "
+            "Each value: encode matches the RFC grammar and denotes the value, decode inverts it, the combined decoder classifies it. "
+            "'All finite floats' is a grid, not a sweep (stated).",
+            "trusted: refmodel/rfc_values.py (regexes written from RFC 5545 3.3, reference decoders)", "3/C03"),
 }
 REASON_PENDING = "check under construction in this session; not claimed until it has been built, silenced on the unchanged tree and shown to detect a seeded change"
 ALL = [f"C{i:02d}" for i in range(1, 21)]
